@@ -8,7 +8,17 @@ D=$(cd "$1" && pwd); TIER=${2:-quick}; shift; [ $# -gt 0 ] && shift
 ID=$(basename "$D" | cut -d- -f1)
 ROOT=$(cd "$(dirname "$0")/.." && pwd)
 if [ -n "$(git -C /repo status --porcelain --untracked-files=no)" ]; then echo "/repo has uncommitted changes; refusing"; exit 2; fi
-CONF=$("$ROOT/tools/seed_verify.sh" "$D" /repo 2>&1 | head -1)
+# the confirmation is tied to a tree: it is repeated unless meta.json already records one for /repo's current HEAD
+HEAD=$(git -C /repo rev-parse --short HEAD)
+CONF=$(python3 - "$D" "$HEAD" <<'PY'
+import json,sys
+try:
+    m=json.load(open(sys.argv[1]+"/meta.json"))["confirmed"]
+    if m.get("base_tree","").endswith("@"+sys.argv[2]) and m.get("result","").startswith("CONFIRMED"): print(m["result"])
+except Exception: pass
+PY
+)
+[ -n "$CONF" ] || CONF=$("$ROOT/tools/seed_verify.sh" "$D" /repo 2>&1 | head -1)
 echo "$(basename $D): $CONF"
 case "$CONF" in CONFIRMED*) ;; *) python3 - "$D" "$CONF" <<'PY'
 import json,sys
